@@ -164,13 +164,17 @@ def form_items(form):
     return out
 
 
+def method_for(seq, chunks):
+    return ("POST", "PUT", "GET", "DELETE")[(len(seq) + len(chunks)) % 4]  # a payload is legal with any method
+
+
 def run_wsgi_seq(bname, chunks, seq):
     from baize import wsgi
     body, ct = BODIES[bname]
     hdrs = [("Content-Type", ct)]
     if len(seq) % 2:  # an accurate Content-Length is present in half of the cases, absent in the other half
         hdrs.append(("Content-Length", str(len(body))))
-    req = drivers.Req(method="POST", headers=hdrs, chunks=chunks)
+    req = drivers.Req(method=method_for(seq, chunks), headers=hdrs, chunks=chunks)
     env = drivers.to_environ(req)
     r = wsgi.Request(env)
     out, objs = [], {}
@@ -207,7 +211,7 @@ def run_wsgi_seq(bname, chunks, seq):
 def run_asgi_seq(bname, chunks, seq, disc):
     from baize import asgi
     body, ct = BODIES[bname]
-    msgs = drivers.body_messages(chunks)
+    msgs = drivers.body_messages(chunks, minimal=bool((len(seq) + len(chunks)) % 3 == 0))
     if disc is not None:
         msgs = msgs[:disc] + [{"type": "http.disconnect"}]
     state = {"calls": 0, "after_end": 0, "ended": False}
@@ -224,7 +228,7 @@ def run_asgi_seq(bname, chunks, seq, disc):
 
     async def main():
         hdrs = [("Content-Type", ct)] + ([("Content-Length", str(len(body)))] if len(seq) % 2 else [])
-        scope = drivers.to_scope(drivers.Req(method="POST", headers=hdrs))
+        scope = drivers.to_scope(drivers.Req(method=method_for(seq, chunks), headers=hdrs))
         r = asgi.Request(scope, receive)
         out, objs = [], {}
         for op in seq:
@@ -314,7 +318,7 @@ def run_concurrent(ctx, bname, chunks, disc, tasks, ryield):
     from baize.asgi import ClientDisconnect
     from baize.exceptions import HTTPException
     body, ct = BODIES[bname]
-    msgs = drivers.body_messages(chunks)
+    msgs = drivers.body_messages(chunks, minimal=bool(ryield))
     if disc is not None:
         msgs = msgs[:disc] + [{"type": "http.disconnect"}]
     handed = []
